@@ -35,13 +35,17 @@ void harness(void)
 #else
 	{
 		IN(size_t, in_pos);
-		/*@assume: mpt_queue_align is verified for the target position 0 only (the only value any caller in the library passes); other positions are outside this contract */
-		V_REQ(in_pos == 0);
+#ifndef ALIGN_ANYPOS
+		V_REQ(in_pos == 0);   /* quick tier: the position every caller in the library uses; every position in the thorough tier */
+#endif
 		mpt_queue_align(&q, in_pos);
 		POST_mpt_queue_align(H_ENS, &q, in_pos)
 		V_ENS("align.frame", Q_BLK_OUTSIDE(blk, pad, 0));
 		V_COVER("wrapped content aligned to start", in_pos == 0 && g_off + g_len > g_max);
 		V_COVER("contiguous content moved", in_pos != g_off && g_off + g_len <= g_max && in_pos + g_len <= g_max && g_len > 0 && in_pos <= g_max);
+#ifdef ALIGN_ANYPOS
+		V_COVER("target position makes the content wrap", in_pos < g_max && in_pos + g_len > g_max && g_len > 0);
+#endif
 	}
 #endif
 	V_CANARY();
